@@ -18,7 +18,7 @@ pub fn words() -> Vec<String> {
 
 pub fn tokens() -> Vec<String> {
     vec![
-        "".into(), " ".into(), "x".into(), "probe".into(), "ptok".into(), "k".into(), "k_x".into(), "-1".into(), "0".into(), "1".into(), "-2".into(),
+        "".into(), " ".into(), "x".into(), "probe".into(), "ptok".into(), "k".into(), "k_x".into(), "{PENDING}".into(), "-1".into(), "0".into(), "1".into(), "-2".into(),
         "2147483647".into(), "2147483648".into(), "-2147483648".into(), "-2147483649".into(), "4294967296".into(),
         "18446744073709551615".into(), "18446744073709551616".into(),
         "340282366920938463463374607431768211455".into(), "340282366920938463463374607431768211456".into(),
@@ -120,6 +120,7 @@ pub fn run_case(ctx: &Ctx, case: &Case) -> Outcome {
     admin.send(&node, "create-db other-db otok");
     // sessions that stay connected for the whole case in the richer world
     let mut _bystanders: Vec<Session> = vec![];
+    let mut _member_rx: Option<futures::channel::mpsc::Receiver<String>> = None;
     if case.world == 1 {
         for i in 0..8 {
             admin.send(&node, &format!("set k v{}", i));
@@ -137,8 +138,15 @@ pub fn run_case(ctx: &Ctx, case: &Case) -> Outcome {
         writer.send(&node, "use-db probe ptok");
         writer.send(&node, "set-safe k_x 0 first-conflict");
         _bystanders = vec![arb, watcher, writer];
+        // a secondary that is connected and never acknowledges: the writes above stay pending, their ids are what the
+        // token {PENDING} in a line stands for
+        let (tx, rx) = futures::channel::mpsc::channel::<String>(1000);
+        _member_rx = Some(rx);
+        node.dbs.add_cluster_member(nundb::bo::ClusterMember { name: "127.0.0.1:3999".to_string(), role: nundb::bo::ClusterRole::Secoundary, sender: Some(tx) });
+        admin.send(&node, "set k pending-write");
     }
     node.pump();
+    let pending_id: String = node.dbs.pending_opps.read().unwrap().keys().max().map(|k| k.to_string()).unwrap_or_else(|| "7".to_string());
     let mut s = Session::new();
     match case.auth {
         Auth::None => {}
@@ -161,6 +169,7 @@ pub fn run_case(ctx: &Ctx, case: &Case) -> Outcome {
         if !line.is_ascii() || line.split(' ').skip(1).any(|t| nasty.iter().skip(1).any(|x| x == t) && (t.len() > 3 || t.starts_with('-') || t.contains(';') || t.contains('\n') || t == "\0")) {
             nontrivial = nontrivial || words().iter().any(|w| !w.is_empty() && line.starts_with(w.as_str()));
         }
+        let line = &line.replace("{PENDING}", &pending_id);
         for _ in 0..reps {
             use std::panic::{catch_unwind, AssertUnwindSafe};
             crate::node::use_dir(&node.dir);
